@@ -4,9 +4,9 @@ CONSTANTS
   Peers = {1, 2}
   MaxEpoch = 1
   Umasks = {18}
-  DkgDbPerm = 432
+  DkgDbPerm = 384
   ChainDbPerm = 432
   PreModes = {}
-INVARIANTS TypeOK NoSecretEmitted OnlyPublicOrEncrypted KeyFilesOwnerOnly SecretsOnlyInNamedFiles
+INVARIANTS TypeOK NoSecretEmitted OnlyPublicOrEncrypted SecretFileOwnerOnly KeyFilesOwnerOnly SecretsOnlyInNamedFiles
 VIEW View
 CHECK_DEADLOCK FALSE
